@@ -154,3 +154,19 @@ register('C14', world='w3:W3World', quick=1500, thorough=60000, level='explorati
                         "liveness at quiescence. 75% of runs use agreeing shared elements (unconditional), 25% disagreeing ones "
                         "(recorded finding). Non-trivial: >=1 merge/unmerge/rollback/partition done.",
          assumptions=W3_ASSUME)
+
+register('C19', world='w4:W4World', quick=5000, thorough=300000, level='exploration',
+         rule="one evaluation = one seeded W4 run: the real Neo4j importer / property graph / ASM / CBM classes are driven through "
+              "3-30 public operations (node/link CRUD, bulk updates, queries, merge, diff, import, ASM and CBM queries, sliver "
+              "adds, lifecycle) with adversarial arguments; every stored value carries a unique marker token. A fake driver "
+              "records every (statement, parameters) pair and answers with PRNG-scripted results (populated / empty / None); "
+              "imports get 0,1,2,5,9 transient or persistent driver failures and retry on a simulated clock. Oracle over the "
+              "recorded history: quotes/brackets balanced, no template residue, every used variable bound, every $parameter "
+              "supplied, a marker may appear in the text only inside one literal whose unescaped content is the value; retry "
+              "count, simulated seconds and staging-file removal. Non-trivial: >=1 operation issued; distinct = distinct "
+              "event-log digest.",
+         assumptions=["the Cypher checker is structural (it accepts constructs it does not know): it can miss a malformed statement that happens to balance",
+                      "what a real server would answer is stubbed; only statement form and the client-side retry logic are judged",
+                      "graph ids count as stored values (they are written to the GraphID property)"],
+         real=['fim (all of it, from /repo working tree)', 'networkx', 'lxml', 'real file system under a per-run scratch directory (import staging files)'],
+         stubs=['neo4j.GraphDatabase / driver / session / result (FakeGraphDatabase)', 'time.sleep in neo4j_property_graph (simulated clock)', 'uuid.uuid4 (seeded)'])
